@@ -62,7 +62,8 @@ def main(p):
                 return False
             setattr(cur, fd.name, k == 0)
         else:
-            pal = [7, 2 ** 60, -3]
+            lo, hi = probelib.INT_RANGES[fd.type]
+            pal = [7, hi] + ([-3] if lo < 0 else [])
             if k >= len(pal):
                 return False
             setattr(cur, fd.name, pal[k])
@@ -94,7 +95,7 @@ def main(p):
             yield f'path#{k}+all', full
             if k == 0:
                 for fd in others:
-                    for variant in range(3):
+                    for variant in range(5):
                         m = Dreq()
                         m.CopyFrom(base)
                         if not probelib.set_field(m, fd, variant, 2, a.get('seed', 0)):
